@@ -236,6 +236,44 @@ def run(ctx):
             if j == 0 and i < 2:
                 cases.append(('big%d' % i, w, stream))
     ctx.extra['many_thread_streams'] = nbig
+    # ... and as many threads as a size-like constant of the parser's sources suggests (a bound on a table of pending records
+    # would sit there), each with a new-thread data / string pair and an exec pair: whatever the merge, every pair learns its name
+    from . import mine
+    from .encode import make_event
+    from pykdebugparser.traces_parser import TracesParser
+    from .pairing import default_codes
+    codes_ = default_codes()
+    n2i = {n: i for i, n in codes_.items() if i & 3 == 0}
+    nts_big = sorted({h + d for h in mine.size_hints(64) for d in (1, 9)} | ({300} if ctx.quick else {300, 5000}))
+    for nt in nts_big:
+        evs = {}
+        for t in range(1, nt + 1):
+            tid = 0x10000000 + t
+            nm = ('n%d' % t).encode().ljust(32, b'\x00')
+            xm = ('x%d' % t).encode().ljust(32, b'\x00')
+            evs[t] = [make_event(5, n2i['TRACE_DATA_NEWTHREAD'], tid, (0x20000000 + t, t, 0, 0)),
+                      make_event(5, n2i['TRACE_STRING_NEWTHREAD'] | 3, tid, data=nm),
+                      make_event(5, n2i['TRACE_DATA_EXEC'], tid, (nt + t, 0, 0, 0)),
+                      make_event(5, n2i['TRACE_STRING_EXEC'] | 3, tid, data=xm)]
+        order = list(range(1, nt + 1))
+        merges = {'one thread after the other': [e for t in order for e in evs[t]],
+                  'record by record': [evs[t][j] for j in range(4) for t in order],
+                  'first thread last': [evs[t][j] for j in (0, 2) for t in order] + [evs[t][j] for j in (1, 3) for t in reversed(order)]}
+        for how, stream in merges.items():
+            p_ = TracesParser(codes_, {}, {})
+            try:
+                for e in stream:
+                    p_.feed(e)
+            except Exception as ex:
+                ctx.violation('C05/many-threads-raised', '%d threads merged %s: %r' % (nt, how, ex), {'kind': 'schedule', 'b': {}})
+                continue
+            bad = [t for t in order if p_.pids_names.get(t) != 'n%d' % t or p_.pids_names.get(nt + t) != 'x%d' % t
+                   or p_.threads_pids.get(0x20000000 + t) != t]
+            nbig += 1
+            if bad:
+                ctx.violation('C05/many-threads-table', '%d threads merged %s: %d threads did not learn their process name / pid (first: thread %d)'
+                              % (nt, how, len(bad), bad[0]), {'kind': 'schedule', 'b': {}})
+    ctx.extra['many_thread_counts'] = nts_big
     # the interleavings of one program set (same world) also run on separate parser objects fed alternately
     validate_streams(ctx, cases, 'full', 'c05val', alternate_rnd=rnd)
     ctx.extra['code'] = {'program_sets': nsets, 'interleavings_each': nil, 'solo_comparisons': solo_cmp}
